@@ -51,7 +51,7 @@ def find_global_key(
     """
     global_key: list[K | int] = []
     if isinstance(arg, MutableMapping):  # dict
-        for key, value in sorted(arg.items()):
+        for key, value in sorted(arg.items(), key=lambda x: (isinstance(x[0], str), x[0])):
             if isinstance(value, MutableMapping | MutableSequence):
                 if next_level_key := find_global_key(arg=value, query=query):
                     global_key.append(key)
